@@ -93,6 +93,14 @@ CHECKS = {
                      'wildcard honours it; same name implies same type. Does NOT decide that distinguishable_paths separates exactly the '
                      'deterministic pairs - the accept/reject verdict for a given model (e.g. the quoted (a, c+, a*)+) is out of static reach.',
                 note=NOTE),
+    'C16': dict(ref='DESIGN.md §2 C16', technique='partial evaluation of hand-written case splits per pair of constraint kinds (folding of the if-chain, no '
+                                                    'execution), canonical vocabulary of set relations compared with the set reading, path conditions at derivation sites',
+                text='Partial: for every kind of namespace constraint (notNamespace / ##any / ##other / list) is_namespace_allowed folds to the '
+                     'membership test of the denoted set; is_matching asks about the right namespace; for all 16 pairs of kinds is_restriction '
+                     'folds to the inclusion and is_overlap to the non-empty intersection of the denoted sets; derivations call the matching '
+                     'operation. Two known findings (XSI namespace admitted by every list/##other constraint; union(##other, list containing '
+                     'the target namespace) drops it). Does NOT decide the in-place algebra of union()/intersection() beyond that clause, nor '
+                     'notQName.', note=NOTE),
     'C09': dict(ref='DESIGN.md §2 C09', technique='type-resolved call graph (mypy expression types + class-hierarchy analysis) with '
                                                     'observation-site detection, pickle/copy pairing of lock attributes, reaching definitions',
                 text='Partial: no function reachable from the on-demand builder enumerates, measures or copies a staged global map (so the '
@@ -110,7 +118,5 @@ CHECKS = {
                 note=NOTE + ' Additionally trusts the mypy type map; constructor edges of persistent classes are cut (fresh objects).'),
 }
 NOT_APPLICABLE = {
-    'C16': 'set semantics of hand-written case splits over namespace constraints can only be decided by evaluating them over the '
-           'enumerated domain (execution); shape rules are blind to the defect quoted in the property',
 }
-FIX_COMMITS = ['0d39fae', 'ee7fbf0', 'ec74ff3', '0116491', '72bb2c6', '4feb9ab', '7a4e62d', '30a94f5', '6402c4d', 'ecfd2cd', '4061701', '189c2b3', '32b357f', '55a609d', 'a42390f', '47eaeb4', 'f5ca257']
+FIX_COMMITS = ['0d39fae', 'ee7fbf0', 'ec74ff3', '0116491', '72bb2c6', '4feb9ab', '7a4e62d', '30a94f5', '6402c4d', 'ecfd2cd', '4061701', '189c2b3', '32b357f', '55a609d', 'a42390f', '47eaeb4', 'f5ca257', '5af3cbd']
